@@ -245,7 +245,11 @@ func (its *PushPullHandler) reserveUpdateSnapshot(ctx iface.OrdaContext) error {
 }
 
 func (its *PushPullHandler) commitToMongoDB() errors.OrdaError {
-	its.datatypeDoc.Sseq.End = its.currentCP.Sseq
+	if !its.isReadOnly {
+		// only a pushing request has derived currentCP.Sseq from Sseq.End (see pushOperations);
+		// a read-only request never moves the end of the log.
+		its.datatypeDoc.Sseq.End = its.currentCP.Sseq
+	}
 	its.resPushPullPack.CheckPoint = its.currentCP
 	its.subClientDoc.UpdateAt()
 	if len(its.pushingOperations) > 0 {
